@@ -111,7 +111,9 @@ CORE_CLASSES = TOWER + ["Str", "NoneType", "Type", "ClassType"]
 CORE_TRAITS = ["Eq", "Ord", "Hash", "Show", "Num", "EqHash", "PartialOrd", "Sized"]
 REFINES = [enum(1, 2), enum("a"), enum(1), enum(0, 1, 2, 3), enum(-1), enum(True), enum(None), enum("a", "b"),
            nival(0, 1, 10), nival(2, 0, 5), nival(0, 0, 4), nival(0, -3, 3), nival(1, 0, 10), nival(3, 0, 11), nival(0, 2, 3),
-           ival(0, 1, 10), ival(2, 0, 5), enum(1.5)]
+           ival(0, 1, 10), ival(2, 0, 5), enum(1.5),
+           # the boundaries of the intervals, as singletons (an off-by-one of an open bound shows as an unsound answer)
+           enum(0), enum(4), enum(5), enum(10), enum(11)]
 
 
 def universe(table_names, rng=None, extra=0):
@@ -209,3 +211,13 @@ def classes_v(rows, mvc_names):
     out.append("(* Type::is_mono_value_class: the builtin enum variants (those that are registered types) *)")
     out.append("Definition mono_value_classes : list Z := [%s]." % "; ".join(str(ids[n]) for n in mvc_names if n in ids))
     return "\n".join(out) + "\n"
+
+
+def known_entries(pid):
+    """the `finding` entries of known/<pid>.json (read directly: other files in known/ may have another shape)"""
+    import json
+    import os
+    f = os.path.join(os.path.dirname(os.path.dirname(os.path.abspath(__file__))), "known", pid + ".json")
+    if not os.path.exists(f):
+        return []
+    return [k for k in json.load(open(f)) if isinstance(k, dict) and k.get("status") == "finding"]
